@@ -211,6 +211,12 @@ def try_to_save_module(hashed_grammar, file_io, module, lines, pickling=True, ca
                 'Tried to save a file to %s, but got permission denied.' % path,
                 Warning
             )
+        except OSError as e:
+            # The same goes for a full disk, a read-only file system, ...
+            warnings.warn(
+                'Tried to save a file to %s, but got: %s' % (path, e),
+                Warning
+            )
         else:
             _remove_cache_and_update_lock(cache_path=cache_path)
 
